@@ -1377,6 +1377,28 @@ def fmt18(ctx: Ctx) -> None:
             ctx.R.undecided("FMT-18", f"Context._format: child heading index `{idx}`")
 
 
-C18 = [fmt1, fmt2, fmt3, fmt5, fmt7, fmt10_11, fmt14, fmt15, fmt16, fmt17, fmt18]
+def fmt19(ctx: Ctx) -> None:
+    """FMT-19 format() returns the lines its _format produced: nothing between the two re-encodes, translates or otherwise rewrites
+    their text.  "ascii_only output is the same text with each prefix marker replaced" -- names, source lines and reprs are the
+    program's and stay as they are; a post-processing pass over the lines (encode(..., "backslashreplace"), translate, replace,
+    unicodedata.normalize) changes them"""
+    mod = ctx.P.mod("_types")
+    f = mod.fn("Formattable.format")
+    REWRITERS = ("encode", "translate", "replace", "casefold", "expandtabs", "strip", "rstrip", "lstrip")
+    bad = [c for c in ast.walk(f) if isinstance(c, ast.Call) and ((isinstance(c.func, ast.Attribute) and c.func.attr in REWRITERS) or norm(c.func) in ("unicodedata.normalize", "ascii", "re.sub"))]
+    rets = [r for r in ast.walk(f) if isinstance(r, ast.Return) and r.value is not None]
+    if bad:
+        ctx.R.fail("FMT-19", mod, bad[0], f"Formattable.format passes the finished lines through `{norm(bad[0])[:60]}`: the text of names, source lines and reprs is rewritten, not only the prefix markers "
+                   "(ascii_only output must be the same text with each marker replaced by its ASCII counterpart)", construct="format() rewrites the lines it returns")
+    elif len(rets) == 1 and isinstance(rets[0].value, ast.Call) and norm(rets[0].value.func) == "self._format":
+        ctx.R.ok("FMT-19", "format() returns self._format(FormatOptions(...)) as is")
+    elif len(rets) == 1 and isinstance(rets[0].value, ast.Name) and any(isinstance(a, ast.Assign) and norm(a.targets[0]) == rets[0].value.id and isinstance(a.value, ast.Call) and norm(a.value.func) == "self._format"
+                                                                        for a in ast.walk(f)) and sum(1 for a in ast.walk(f) if isinstance(a, (ast.Assign, ast.AugAssign)) and norm(getattr(a, "targets", [getattr(a, "target", None)])[0]) == rets[0].value.id) == 1:
+        ctx.R.ok("FMT-19", "format() returns the list self._format produced")
+    else:
+        ctx.R.undecided("FMT-19", "cannot see that format() returns the lines of self._format unchanged")
+
+
+C18 = [fmt1, fmt2, fmt3, fmt5, fmt7, fmt10_11, fmt14, fmt15, fmt16, fmt17, fmt18, fmt19]
 C19 = [fmt2, fmt4, fmt6, fmt8, fmt9, fmt12, fmt13]
 C20 = [cont7, mode_rules, mode4, ref1]
